@@ -25,6 +25,7 @@ type Universe struct {
 	heapKeys  map[string]types.Type // heap key → element type
 	mapKeys   map[string]*types.Map
 	sizes     types.Sizes
+	preludeCache string
 }
 
 type namedAxiom struct {
@@ -327,7 +328,18 @@ func (u *Universe) zero(t types.Type) string {
 }
 
 // prelude emits the fixed declarations plus every struct datatype seen so far.
+// prelude is computed once, after every VC of the run has been generated
+// (queries are rendered concurrently afterwards).
 func (u *Universe) prelude() string {
+	if u.preludeCache != "" {
+		return u.preludeCache
+	}
+	return u.buildPrelude()
+}
+
+func (u *Universe) freezePrelude() { u.preludeCache = u.buildPrelude() }
+
+func (u *Universe) buildPrelude() string {
 	var b strings.Builder
 	b.WriteString("(declare-datatypes ((Slice 0)) (((mkSlice (sptr Int) (slen Int) (scap Int)))))\n")
 	b.WriteString("(declare-datatypes ((Any 0)) (((mkAny (atag Int) (anum Int) (astr String) (asl Slice)))))\n")
